@@ -33,7 +33,11 @@ def build(rng, enz):
     for oid, cname, wd, fs, L in inputs:
         n = len(wd)
         feats = gen.gen_features(rng, n, rng.choice([0, 2, 4, 6]))
-        feats = [f for f in feats if f.ftype != 0]
+        # partial `source`-typed features are what the library itself generates for every fragment, so any
+        # product re-used one level up carries them: keep them in the tables
+        if fs + L <= n and L >= 3 and rng.random() < 0.6:
+            a = rng.randrange(fs, fs + L - 1)
+            feats.append(Feat(0, "s{}".format(40 + rng.randrange(5)), (), ((a, rng.randint(a + 1, fs + L), 0),)))
         feats += gen.features_inside(rng, fs, min(n, fs + L), rng.choice([0, 1, 2, 3]), n)
         if fs + L <= n and rng.random() < 0.5:
             feats.append(Feat(1, "u90", (), ((fs, fs + L, rng.choice([1, -1, 0])),)))          # exactly the fragment
@@ -86,10 +90,11 @@ def check_case(ctx, case):
     else:
         N = len(prod.seq)
         exp, (kept, dropped) = expected_features(case["meta"])
+        generated = {"s{}".format(m["oid"]) for m in case["meta"]}
         got = []
         for pf in impl.canon_record(prod).feats:
-            if pf.ftype == 0 and pf.qual.startswith("s"):
-                continue
+            if pf.ftype == 0 and pf.qual in generated:
+                continue        # the provenance feature generated for a fragment of one of the inputs
             got.append((pf.ftype, pf.qual, tuple(sorted((tuple(sorted(t % N for t in range(s, e))), st)
                                                         for (s, e, st) in pf.parts))))
         got.sort()
